@@ -8,7 +8,7 @@ VERIF = gen.VERIF
 BUILD = os.environ.get("VERIF_BUILD", os.path.join(VERIF, "build"))
 
 SEMANTIC = [
-    "postcondition not satisfied", "precondition not satisfied", "invariant not satisfied",
+    "postcondition not satisfied", "precondition not satisfied", "precondition not met", "invariant not satisfied",
     "loop invariant not satisfied", "assertion failed", "possible arithmetic underflow/overflow",
     "possible division by zero", "decreases not satisfied", "possible bit shift underflow/overflow",
     "recommendation not met", "unreachable", "panic", "possible truncation", "could not prove termination",
@@ -90,7 +90,7 @@ def classify(msg):
     for u in UNDECIDED_MARKERS:
         if u.lower() in low:
             return "undecided"
-    for s in SEMANTIC[:14]:
+    for s in SEMANTIC[:15]:
         if s in low:
             return "semantic"
     return "other"
@@ -119,7 +119,7 @@ def map_diag(d, lines_tag, text_lines, unit):
     if site_tag.get("src"):
         detail["repo"] = site_tag["src"]
     fn = site_tag.get("fn")
-    if "precondition not satisfied" in msg:
+    if "precondition not satisfied" in msg or "precondition not met" in msg:
         # obligation belongs to the caller: <fn>.safety ; detail carries callee clause
         if clause_span:
             detail["callee_clause"] = clause_span["text"][0]["text"].strip() if clause_span.get("text") else ""
